@@ -226,4 +226,117 @@ theorem decrypt_rest_eq_model' (P : Params σ) (hcf : St σ → Out → Res (St 
   | error e => rfl
   | ok pt => cases Frame.parseFrames pt <;> rfl
 
+/-! ### the whole of `decrypt_packet` -/
+
+theorem errOf_ne_fuel (e : PyErr) : decide (errOf e ≠ Err.fuel) = true := by cases e <;> rfl
+
+/-- `get_full_packet_number` as an external over the state record (it reads the table and leaves the state alone) -/
+def gfpnOf (s : St σ) (p : Pkt) : Res (St σ) Bytes :=
+  match getFullPn s p with
+  | .ok b => .ok b s
+  | .error e => .raised (errOf e) s
+
+def selRes2 (p : Pkt) : St σ × Except PyErr (Option Dec) → Res (St σ) (Pkt × Option Dec)
+  | (s, .ok d) => .ok (p, d) s
+  | (s, .error e) => .raised (errOf e) s
+
+theorem app_decryptor2 (p : Pkt) (s : St σ) (srv : Bool) :
+    tryE (someE Err.key s.decApp) (fun e => (.raised e s : Res (St σ) (Pkt × Option Dec))) (fun gens =>
+        tryE (listItemE gens (Int.ofNat (if srv then s.epochServer else s.epochClient))) (fun e => .raised e s) (fun d => .ok (p, some d) s))
+      = selRes2 p (s, appDecryptor s srv) := by
+  unfold appDecryptor
+  cases h : s.decApp with
+  | none => simp [someE, selRes2, errOf]
+  | some gens =>
+    simp only [someE, tryE_ok, listItemE_nat]
+    cases gens[if srv then s.epochServer else s.epochClient]? <;> simp [selRes2, errOf]
+
+theorem join_select (P : Params σ) (s : St σ) (p : Pkt) :
+    QS.decrypt_packet.join3 (fun st ph srv => resOf (checkKeyEpoch P st ph srv)) p s = selRes2 p (selectDecryptor P s p) := by
+  unfold QS.decrypt_packet.join3 QS.decrypt_packet.join2 selectDecryptor
+  cases hh : p.htype with
+  | short =>
+    simp only [QS.isShort, hh, decide_true, if_true]
+    by_cases hr : p.ptype = .rtt1
+    · simp only [hr, decide_true, if_true]
+      cases hc : checkKeyEpoch P s p.keyPhase p.isServer with
+      | mk s' e =>
+        cases e with
+        | some e => simp [resOf, selRes2]
+        | none =>
+          simp only [resOf, tryR_ok]
+          have := app_decryptor2 p s' p.isServer
+          cases hs : p.isServer <;> simp only [hs, if_true, if_false, Bool.false_eq_true] at this ⊢ <;> exact this
+    · simp only [hr, decide_false, if_false, Bool.false_eq_true, tryR_ok]
+      have := app_decryptor2 p s p.isServer
+      cases hs : p.isServer <;> simp only [hs, if_true, if_false, Bool.false_eq_true] at this ⊢ <;> exact this
+  | long =>
+    simp only [QS.isShort, hh, reduceCtorEq, decide_false, if_false, Bool.false_eq_true]
+    cases hp : p.ptype
+    case initial => cases hd : s.decInitial <;> simp [longDecryptor, selRes2, someE, errOf, hd]
+    case handshake => cases hd : s.decHandshake <;> simp [longDecryptor, selRes2, someE, errOf, hd]
+    case rtt0 => cases hd : s.decEarly <;> simp [longDecryptor, selRes2, someE, errOf, hd]
+    all_goals simp [longDecryptor, selRes2]
+
+theorem join_aad (s : St σ) (p : Pkt) : QS.decrypt_packet.join4 p s = aadRes s (assocData p) :=
+  (rfl : QS.decrypt_packet.join4 p s = QS.decrypt_aad p s).trans (decrypt_aad_eq_model s p)
+
+/-- the frame loop inside the try/except: an exception of `handle_frame` ends the method, the state stays as it is then -/
+theorem frames_loop_caught (P : Params σ) (hcf : St σ → Out → Res (St σ) Unit) (h : CryptoAgrees P hcf) (p : Pkt) (s0 : St σ) :
+    ∀ (fs : List Frame.Parsed) (s : St σ),
+      loopS (forS (fs.map (mkOut p)) s (fun py_s frame =>
+                tryR (QS.handle_frame hcf frame py_s)
+                  (fun e st' => (.ok (.ret (if decide (e ≠ Err.fuel) then .ok () st' else .raised e st')) :
+                      Except Err (Step (St σ) (Res (St σ) Unit)))) (fun _ st' => .ok (.next st'))))
+              (fun e => if decide (e ≠ Err.fuel) then .ok () s0 else .raised e s0) (fun r => r) (fun py_s => .ok () py_s)
+        = .ok () (handleFrames P s p fs).1 := by
+  intro fs
+  induction fs with
+  | nil => intro s; rfl
+  | cons f rest ih =>
+    intro s
+    simp only [List.map_cons, forS, handleFrames, handle_frame_eq_model P hcf h]
+    cases handleFrame P s p f with
+    | mk s1 e =>
+      cases e with
+      | none => simp only [resOf, tryR_ok]; exact ih s1
+      | some e => simp only [resOf, tryR_raised, loopS_ret, errOf_ne_fuel, if_true]
+
+/-- `decrypt_packet(quic_packet)`: the state afterwards is the model's (every exception is swallowed by the try/except) -/
+theorem decrypt_packet_eq_model (P : Params σ) (hcf : St σ → Out → Res (St σ) Unit) (h : CryptoAgrees P hcf) (s : St σ) (p : Pkt) :
+    QS.decrypt_packet hcf (fun st ph srv => resOf (checkKeyEpoch P st ph srv)) gfpnOf (fun st q b => .ok () (setLargestPn st q b))
+        (fun d pl pn aad srv => ofE (decDecrypt P d pl pn aad srv)) parseOf p s
+      = .ok () (decryptPacket P s p).1 := by
+  unfold QS.decrypt_packet decryptPacket
+  rw [join_select]
+  cases hsel : selectDecryptor P s p with
+  | mk s1 r =>
+    cases r with
+    | error e => simp only [selRes2, tryR_raised, errOf_ne_fuel, if_true]
+    | ok d? =>
+      simp only [selRes2, tryR_ok, gfpnOf, decryptRest]
+      cases hpn : getFullPn s1 p with
+      | error e => simp only [tryR_raised, errOf_ne_fuel, if_true]
+      | ok pn =>
+        simp only [tryR_ok, join_aad]
+        cases haad : assocData p with
+        | error e =>
+          cases e <;> simp only [aadRes, tryR_raised, tryR_ok, errOf_ne_fuel, if_true] <;>
+            cases d? <;> simp [unboundE]
+        | ok aad =>
+          simp only [aadRes, tryR_ok]
+          cases d? with
+          | none => simp [unboundE]
+          | some d =>
+            simp only [unboundE, tryE_ok]
+            cases decDecrypt P d p.payload pn aad p.isServer with
+            | error e => simp only [ofE, tryE_error, errOf_ne_fuel, if_true]
+            | ok pt =>
+              simp only [ofE, tryE_ok, tryR_ok, parseOf]
+              cases Frame.parseFrames pt with
+              | none => simp
+              | some fs =>
+                simp only [tryE_ok]
+                exact frames_loop_caught P hcf h p _ fs _
+
 end TLX.Props.Translated.QSess
